@@ -239,15 +239,22 @@ func (c *Ctx) defensiveOnCallbackStore(f *ssa.Function, r *ssa.Return) bool {
 		if !ok {
 			continue
 		}
-		cell := cellOf(u.X)
-		if cell == nil {
-			continue
+		var stores []*ssa.Store
+		if cell := cellOf(u.X); cell != nil {
+			stores = cellStores(cell)
+		} else if os, ok := fieldOrigins(u, 0); ok {
+			// a field of the context struct the callback method is bound to (claim.chosen)
+			for _, o := range os {
+				if st, isStore := o.At.(*ssa.Store); isStore {
+					stores = append(stores, st)
+				}
+			}
 		}
 		for _, ls := range c.F.LockSites {
 			if ls.Fn != f || ls.Callback == nil {
 				continue
 			}
-			for _, st := range cellStores(cell) {
+			for _, st := range stores {
 				if st.Parent() != ls.Callback {
 					continue
 				}
@@ -425,6 +432,21 @@ func (c *Ctx) checkTaskProvenance(f *ssa.Function, base ssa.Value, fn, construct
 					continue
 				}
 			}
+			// a private lookup helper (resolveSetTarget(graph, id, updates) -> (*Task, error)): what its success returns hand back
+			if cl, ok := x.Tuple.(*ssa.Call); ok {
+				if cal := cl.Call.StaticCallee(); cal != nil && cal.Blocks != nil && c.InModule(cal) && !c.opaqueHelper(cal) {
+					pushed := false
+					for _, r := range c.nonFailingReturns(cal) {
+						if x.Index < len(r.Results) {
+							work = append(work, item{returnedValue(r, x.Index), it.d + 1})
+							pushed = true
+						}
+					}
+					if pushed {
+						continue
+					}
+				}
+			}
 			bad = "task comes from " + c.canon(v)
 		case *ssa.Lookup:
 			if _, n, ok := fieldLoad(x.X); ok && n == "Tasks" && lg != nil && fromLoaded(x.X) {
@@ -516,25 +538,35 @@ func (c *Ctx) nonEmptyChecked(v ssa.Value, at *ssa.Function) bool {
 		return false
 	}
 	want := c.canon(v)
-	for f := at; f != nil; f = f.Parent() {
+	// walk outwards: the function itself, then the function that creates it as a closure or hands it to the lock primitive
+	var site *ssa.BasicBlock // the block in f from which `at`'s code is entered; nil for f == at
+	f := at
+	for hops := 0; f != nil && hops < 6; hops++ {
 		pass := edgesWhere(f, func(a Atom, holds bool) bool {
 			return a.Kind == "const" && !holds && a.C.Value != nil && a.C.Value.Kind() == constant.String && constant.StringVal(a.C.Value) == "" && c.canon(a.X) == want
 		})
-		if len(pass) == 0 {
+		if len(pass) > 0 {
+			if site == nil || mustPassEdges(f, site, pass) {
+				return true
+			}
+		}
+		// next enclosing context
+		inner := f
+		if ls := c.F.Callbacks[inner]; ls != nil && inner.Parent() == nil {
+			f, site = ls.Fn, ls.Call.Block() // a named function / bound method used as the lock callback
 			continue
 		}
-		// the site in f: the MakeClosure creating the chain towards `at`, or any block if f == at
-		var site *ssa.BasicBlock
-		if f == at {
-			return true
-		}
-		eachInstr(f, func(r instrRef) {
-			if mc, ok := r.In.(*ssa.MakeClosure); ok && isNested(at, mc.Fn.(*ssa.Function)) {
-				site = r.Blk
+		f = inner.Parent()
+		site = nil
+		if f != nil {
+			eachInstr(f, func(r instrRef) {
+				if mc, ok := r.In.(*ssa.MakeClosure); ok && (mc.Fn == ssa.Value(inner) || isNested(inner, mc.Fn.(*ssa.Function))) {
+					site = r.Blk
+				}
+			})
+			if site == nil {
+				return false
 			}
-		})
-		if site != nil && mustPassEdges(f, site, pass) {
-			return true
 		}
 	}
 	return false
